@@ -16,6 +16,8 @@ anything else (keyword arguments, attribute/subscript targets, comprehensions, s
                expression, abs/min/max, calls of plain Python functions reachable through the module's globals or
                through modules (``f(x)``, ``mod.f(x)``, ``pkg.mod.f(x)``) with positional and keyword arguments
                (``f(x, b=y)``; the callee may have numeric defaults), ``math.<fn>(x)`` as opaque ``fn`` node.
+Names are resolved like Python does: function locals, function-level imports (with their aliases), the cells of
+enclosing functions (``fn.__closure__``), module globals; a name bound differently in two scopes gets two keys in ``ft``.
 The CPython cross-check of the encoder (run the original function, compare with the spec's Run) is done by the caller.
 """
 
@@ -76,6 +78,9 @@ class _Enc:
         fd = tree.body[0]
         if not isinstance(fd, ast.FunctionDef):
             raise OutsideSubset("not a plain function definition")
+        if fd.decorator_list or hasattr(fn, "__wrapped__") or fd.name != getattr(fn, "__name__", fd.name):
+            # the meaning of a decorated function is what calling the OBJECT does, not what its source says
+            raise OutsideSubset("decorated / wrapped function")
         a = fd.args
         if a.vararg or a.kwarg or a.kwonlyargs or a.posonlyargs or a.kw_defaults:
             raise OutsideSubset("only plain positional-or-keyword parameters")
@@ -123,8 +128,15 @@ class _Enc:
     def const(self, qual: str, obj) -> dict:
         if isinstance(obj, bool) or not isinstance(obj, (int, float)):
             raise OutsideSubset(f"{qual} is not a number")
-        self.ft[qual] = {"k": "const", "v": _num(obj)["v"]}
-        return {"k": "const", "name": qual}
+        # the same name may denote different bindings in different scopes (a function-level import or a closure
+        # cell shadowing a module global; the globals of another module): every binding gets its own key
+        v = _num(obj)["v"]
+        key, n = qual, 1
+        while key in self.ft and self.ft[key] != {"k": "const", "v": v}:
+            n += 1
+            key = f"{qual}#{n}"
+        self.ft[key] = {"k": "const", "v": v}
+        return {"k": "const", "name": key}
 
     # -- expressions -----------------------------------------------------------------------------------
     def expr(self, e) -> dict:
@@ -173,11 +185,12 @@ class _Enc:
             if getattr(target, "__module__", None) == "math" and callable(target):
                 return {"k": "fn", "name": target.__name__, "args": args}
             if isinstance(target, types.FunctionType):
-                name = target.__name__
+                name, n = target.__name__, 1
                 if target in self.stack or target is self.fn:
                     raise OutsideSubset("recursive function")
-                if name in self.ft and self.ft[name].get("_obj") is not target:
-                    raise OutsideSubset(f"two different functions named {name}")
+                while name in self.ft and self.ft[name].get("_obj") is not target:
+                    n += 1          # another callable of that name (other module, closure, local import): own key
+                    name = f"{target.__name__}#{n}"
                 if name not in self.ft:
                     sub = _Enc(target, self.ft, (*self.stack, self.fn))
                     self.ft[name] = {"k": "fn", "params": sub.params, "body": sub.body(), "defs": sub.defs, "_obj": target}
